@@ -16,14 +16,12 @@ NOT_APPLICABLE = {
     'C16': 'global laws of a ~3 kLoC mutually recursive checker with db lookups; only two syntactic head guards are in reach — would overclaim',
     'C17': 'render -> parse -> infer round trip over strings and the type system',
     'C18': 'generic instantiation is a whole-pipeline property',
-    'C24': 'tokio task schedules / request routing: neither Verus nor Kani models async tasks',
     'C27': 'interleavings of spawned notification tasks: no thread/async model in Verus or Kani',
     'C28': 'deadlock freedom over RwLock acquisition order across async tasks: whole-history, no model in this family',
     'C29': 'interleavings of reload with notifications: schedules, not function contracts',
     'C30': 'debounce timers and cancellation across tasks: schedules, not function contracts',
     'C34': 'conversion is url::Url + percent_encoding: dependency code',
     'C37': '8.8 kLoC of byte-offset markup parsing over rowan tokens; only the final sort_by_key is in reach, which is the std contract',
-    'C39': 'crash points and ENOSPC between open(O_TRUNC) and write are OS states, not pre/post states of a Rust function',
     'C40': 'whole converter -> string -> parser pipeline',
     'C41': 'oracle is execution in a Lua VM; loop narrowing is whole-analysis',
     # planned, not yet built:
